@@ -244,3 +244,17 @@ def run_shard(desc, seed, tier):
 
 def finish(cov, total, tier):
     cov["exhaustive"] = False
+
+
+def shrink_extra(case, fails):
+    if case.get("kind") != "doc":
+        return case
+    from vf.gen import conforming
+
+    def f(doc):
+        c = dict(case)
+        c["doc"] = doc
+        return fails(c)
+    c = dict(case)
+    c["doc"] = conforming.shrink_doc(case["doc"], f, budget=400)
+    return c
